@@ -175,6 +175,43 @@ func zzC15bPong() {
 	vf.Reach("end")
 }
 
+// C15.b2: the broker's pings travel through the real read loop while the pong writes are stuck
+// behind a congested send path (more pings than any internal queue holds); once the path recovers
+// every ping has been answered once, in order, with its own request id.
+func zzC15b2PingBacklog() {
+	tr := ZZNewFakeTransport()
+	tr.In = make(chan message.Message, 32)
+	gate := make(chan struct{})
+	tr.OnWrite = func(m message.Message) error {
+		if _, ok := m.(*message.Pong); ok {
+			<-gate
+		}
+		return nil
+	}
+	c := ZZNewClientConn(tr, nil)
+	go c.readReliableLoop()
+	const n = 20
+	base := vf.U32("first.id")
+	for i := 0; i < n; i++ {
+		tr.In <- &message.Ping{RequestID: message.RequestID(base + uint32(2*i))}
+	}
+	vf.Settle()
+	close(gate)
+	vf.Settle()
+	var pongs []*message.Pong
+	for _, m := range tr.Msgs() {
+		if p, ok := m.(*message.Pong); ok {
+			pongs = append(pongs, p)
+		}
+	}
+	vf.Assert("every-ping-answered-once", len(pongs) == n)
+	for i, p := range pongs {
+		vf.Assert("pong-ids-in-order", uint32(p.RequestID) == base+uint32(2*i))
+	}
+	vf.Assert("not-closed", tr.CloseCount == 0)
+	vf.Reach("end")
+}
+
 // C15.a: keepalive control flow on the virtual clock, for every interval/timeout pair in range
 // (the timeout may be shorter or longer than the interval) and every pong delay below the timeout.
 func zzC15aKeepAlive() {
